@@ -151,11 +151,14 @@ theorem inv3_recordInst (s : St) (g i : Nat) (y : G) (x : Inst) (h : Inv3 s)
       rw [if_neg hcur] at hK
       exact ⟨hK, h0.1, h0.2⟩
 
-theorem inv3_step (s s' : St) (e : Ev) (h : Inv3 s) (hs : step s e = some s')
-    (hn : ∀ k, e ≠ .nilnext k) : Inv3 s' := by
-  have hK := kinv_step s s' e h.k hs hn
+theorem inv3_step (s s' : St) (e : Ev) (h : Inv3 s) (hs : step s e = some s') : Inv3 s' := by
+  have hK := kinv_step s s' e h.k hs
   cases e with
-  | nilnext k => exact absurd rfl (hn k)
+  | nilnext k =>
+    simp only [step] at hs
+    split at hs
+    · simp at hs; subst hs; exact inv3_congr (s := s) rfl rfl rfl h
+    · simp at hs
   | config c =>
     simp only [step] at hs
     split at hs
@@ -294,19 +297,7 @@ theorem inv3_step (s s' : St) (e : Ev) (h : Inv3 s) (hs : step s e = some s')
 theorem inv3_init : Inv3 ({} : St) :=
   ⟨kinv_init, fun g y i x hy => by simp at hy, fun g y i x hy => by simp at hy⟩
 
-theorem inv3_run (s s' : St) (es : List Ev) (h : Inv3 s) (hn : NoNil es) (hr : model.run s es = some s') :
-    Inv3 s' := by
-  induction es generalizing s with
-  | nil => simp [OLTS.run] at hr; subst hr; exact h
-  | cons e es ih =>
-    simp only [OLTS.run] at hr
-    cases hst : model.step s e with
-    | none => simp [hst] at hr
-    | some s1 =>
-      simp [hst] at hr
-      exact ih s1 (inv3_step s s1 e h hst (hn e (by simp))) (fun e' he' => hn e' (by simp [he'])) hr
-
-theorem inv3_reachable (es : List Ev) (s : St) (hn : NoNil es) (hr : model.run model.init es = some s) : Inv3 s :=
-  inv3_run model.init s es inv3_init hn hr
+theorem inv3_reachable (s : St) (h : model.Reachable s) : Inv3 s :=
+  model.invariant Inv3 inv3_init (fun s e s' hi hs => inv3_step s s' e hi hs) s h
 
 end UtilModel.Keyed
